@@ -33,7 +33,7 @@ A history is a JSON-serialisable plan (list of ops) + the database it runs in, s
   ["direct", [arg-hex…]]                      one command on the observed connection
   ["exec", [[arg-hex…], …]]                   MULTI, the commands, EXEC
   ["script", [arg-hex…]]                      EVAL "return redis.call(unpack(ARGV))" 0 args…
-  ["bpop", key-hex, "L"|"R", [push arg-hex…], "direct"|"exec"]
+  ["bpop", key-hex, "L"|"R", [push arg-hex…], "direct"|"exec"|"exec-hop"|"script"|"rename"]
                                               key absent: a second client blocks in BLPOP/BRPOP key 0, the observed connection
                                               pushes, the blocked client is served (wake-up path); key a list: immediate BLPOP/BRPOP
   ["evalsha", script-hex, [arg-hex…]]         SCRIPT LOAD + EVALSHA sha 0 args…
@@ -261,6 +261,15 @@ class AGen(ksgen.Gen):
     def g_xpending(self): return [self.xkey(), self.r.choice([b"g", b"g2"])]
     def g_bgrewriteaof(self): return []
 
+    def g_spop(self):
+        # mostly on keys that hold sets, so that the draw takes something (the entry logged by its effect)
+        k = self.r.choice([b"s", b"s", b"s", b"s2", self.key()])
+        if self.r.chance(1, 2):
+            return [k]
+        c = self.r.choice([b"0", b"1", b"2", b"3", b"10", b"-1", b"abc"])
+        self.last_shape = "c" + c.decode()
+        return [k, c]
+
     def g_pexpire(self):
         # positive or malformed only: PEXPIRE parses u64, so `PEXPIRE k -5` is refused and `PEXPIRE k 0` leaves an entry that is
         # already dead (the reference deletes the key in both cases) — C01/C02's subject, kept out of these histories
@@ -284,7 +293,7 @@ KS_READS = ["GET", "MGET", "STRLEN", "GETRANGE", "EXISTS", "TYPE", "KEYS", "DBSI
             "LLEN", "LRANGE", "LINDEX", "SMEMBERS", "SISMEMBER", "SCARD", "SUNION", "SINTER", "SDIFF", "SRANDMEMBER",
             "HGET", "HMGET", "HGETALL", "HLEN", "HEXISTS", "HKEYS", "HVALS"]
 KS_VOCAB = KS_WRITES * 2 + KS_READS + ["FLUSHALL"]
-FULL_VOCAB = KS_VOCAB + ["ZADDN", "ZADDN", "ZADDN", "ZREM", "ZINCRBY", "ZINCRBY", "ZPOPMIN", "ZPOPMAX", "ZRANGE", "ZSCORE", "ZCARD",
+FULL_VOCAB = KS_VOCAB + ["SPOP", "SADD", "ZADDN", "ZADDN", "ZADDN", "ZREM", "ZINCRBY", "ZINCRBY", "ZPOPMIN", "ZPOPMAX", "ZRANGE", "ZSCORE", "ZCARD",
                          "XADDN", "XADDN", "XADDN", "XADDN", "XLEN", "XRANGE", "XTRIM", "XDEL", "XGROUP", "XGROUP", "XREADGROUP", "XREADGROUP",
                          "XACK", "XPENDING", "BGREWRITEAOF"]
 PROFILES = ["direct", "exec", "script", "blocking", "mixed", "mixed"]
@@ -315,6 +324,9 @@ def gen_plan(r, profile, ks_only, n_ops, covered_only=False):
     g = AGen(r.fork("gen"), vocab)
     if covered_only:
         g.auto_id = False
+    # database hopping: in a third of the other histories a SELECT among three databases before every third op, so that every kind
+    # of entry (direct, EXEC, script, by-effect, pops made for blocking clients) often follows an entry of another database
+    hop = [0, r.range(1, 15), r.range(1, 15)] if (not covered_only and r.chance(1, 3)) else None
     plan = [["direct", [hx(a) for a in c]] for c in g.setup()]
     for _ in range(n_ops):
         k = r.below(100)
@@ -349,12 +361,37 @@ def gen_plan(r, profile, ks_only, n_ops, covered_only=False):
         elif path == "bpop":
             key = r.choice([b"q", b"q", b"l", b"q2"])
             push = [r.choice([b"RPUSH", b"LPUSH"]), key] + [r.choice(ksgen.ELEMS) for _ in range(r.range(1, 2))]
-            plan.append(["bpop", hx(key), r.choice(["L", "R"]), [hx(a) for a in push], "exec" if r.chance(1, 3) else "direct"])
+            plan.append(["bpop", hx(key), r.choice(["L", "R"]), [hx(a) for a in push],
+                         r.choice(["direct", "direct", "exec", "exec-hop", "script", "rename"])])
         elif path == "evalsha":
             key = r.choice([b"k1", b"sha"])
             plan.append(["evalsha", hx(b"return redis.call('SET', ARGV[1], ARGV[2])"), [hx(key), hx(r.choice([b"1", b"v"]))]])
-        if profile == "mixed" and not covered_only and r.chance(1, 40):
+        if hop and r.chance(1, 3):
+            plan.append(["select", r.choice(hop)])
+        elif profile == "mixed" and not covered_only and r.chance(1, 40):
             plan.append(["select", r.range(0, 15)])
+        if hop and r.chance(1, 8):
+            # an entry of each special kind right after an entry of another database
+            d1, d2 = r.choice(hop), r.choice(hop)
+            if d1 != d2:
+                S = lambda *a: [hx(x) for x in a]
+                kind = r.below(5)
+                plan.append(["select", d1])
+                if kind == 0:
+                    plan.append(["direct", S(b"SADD", b"s", b"a", b"b", b"c")])
+                plan.append(["select", d2])
+                plan.append(["direct", S(b"SET", b"k1", b"elsewhere")])
+                plan.append(["select", d1])
+                if kind == 0:
+                    plan.append(["direct", S(b"SPOP", b"s") if r.chance(1, 2) else S(b"SPOP", b"s", b"2")])
+                elif kind == 1 and not ks_only:
+                    plan.append(["direct", S(b"XADD", b"x2", b"*", b"f", b"v")])
+                elif kind == 2 and not ks_only:
+                    plan.append(["evalsha", hx(b"return redis.call('SET', ARGV[1], ARGV[2])"), S(b"sha", b"v")])
+                elif kind == 3:
+                    plan.append(["script", S(b"RPUSH", b"l", b"via-script")])
+                else:
+                    plan.append(["exec", [S(b"INCR", b"k2"), S(b"HSET", b"h", b"f1", b"1")]])
         if profile in ("mixed", "blocking") and not covered_only and r.chance(1, 25):
             # a BLPOP/BRPOP served at once in a database other than the one of the previous entry of the file:
             # fill a list in d1, write in d2, come back to d1 and pop
@@ -716,17 +753,36 @@ class Runner:
                         pass
                     raise InternalError("blocked client never appeared in VERIF BLOCKED (registry %r, its reply so far %r)" % (reg, early))
                 time.sleep(0.003)
+            blocked_db = self.db
             if via == "exec":
                 self.do_exec([push])
+                pushed = self.events[-1]
+            elif via == "exec-hop":
+                # the push, then a SELECT and a write elsewhere in the same transaction: the blocked client is served after
+                # EXEC, so its pop follows an entry that ran in another database
+                other = (self.db + 5) % 16
+                n0 = len(self.events)
+                self.do_exec([push, [b"SELECT", b"%d" % other], [b"SET", b"k1", b"hop"]])
+                pushed = self.events[n0] if len(self.events) > n0 else self.events[-1]
+            elif via == "script":
+                # the element arrives through redis.call: the blocked client is served once the script is over
+                pushed = self.direct([b"EVAL", WRAPPER, b"0"] + push)
+            elif via == "rename":
+                # the elements arrive under another name and are renamed onto the awaited key
+                tmp = key + b"-tmp"
+                self.direct([b"DEL", tmp])
+                self.direct([push[0], tmp] + push[2:])
+                pushed = self.direct([b"RENAME", tmp, key])
             else:
-                self.direct(push)
-            pushed_ok = self.events[-1].reply is not None and self.events[-1].reply[0] == "i"
+                pushed = self.direct(push)
+            self.rep.count("bpop.served-path.%s" % via)
+            pushed_ok = pushed.reply is not None and (pushed.reply[0] == "i" or pushed.reply == ("s", b"OK"))
             try:
                 r = a.read_reply(3.0 if pushed_ok else 0.2)
             except TimeoutError:
                 r = None
             if r is not None and r[0] == "a" and len(r[1]) == 2:
-                e = Event("wake", db=self.db, left=left, key=key, value=r[1][1][1], immediate=False)
+                e = Event("wake", db=blocked_db, left=left, key=key, value=r[1][1][1], immediate=False)
                 self.events.append(self.feed(e))
                 self.rep.evaluations += 1
                 if self.check_every_command:
@@ -941,7 +997,26 @@ def judge(R, plan, db, ks_only, fs, tag, check_every_command=False, policy="keep
                                             "model": mr[:600], "impl": model_view(rp[d])[:600], "history": hist})
     if R.blocked_timeouts:
         rep.count("bpop.pushed-but-not-served", R.blocked_timeouts)
-    # distribution
+    # distribution: for every kind of entry, how often it ran in another database than the previous entry of the file
+    # (the model then emits a SELECT first: two entries for the event)
+    for e in events:
+        if e.model_entries == 0:
+            continue
+        if e.kind == "wake":
+            kind = "blocking-pop-at-once" if e.immediate else "blocking-pop-served"
+        elif e.name() == "EVALSHA":
+            kind = "evalsha-as-eval" if R.facts.get("evalshaAsEval") else "evalsha"
+        elif e.name() == "EVAL":
+            kind = "script"
+        elif R.facts.get("randomByEffect") and e.name() == "SPOP":
+            kind = "by-effect-srem"
+        elif R.facts.get("randomByEffect") and e.name() == "XADD" and len(e.raw) > 2 and e.raw[2] == b"*":
+            kind = "by-effect-xadd-id"
+        else:
+            kind = "exec" if e.via_exec else "direct"
+        changed = e.model_entries >= 2
+        rep.count("entry.%s.%s" % (kind, "db-differs-from-previous-entry" if changed else "same-db-as-previous-entry"))
+        rep.nontrivial(("entry", kind, changed))
     for e in events:
         if e.kind == "wake":
             rep.count("path.%s" % ("blpop-immediate" if e.immediate else "wake"))
